@@ -25,10 +25,16 @@ func TestVerifC06(t *testing.T) {
 	roots := []string{vBundledRoot}
 	if g := vGenRoot(); g != "" {
 		roots = append(roots, g)
+		if x := vGenExtraRoot(); x != "" {
+			roots = append(roots, x)
+		}
 	}
 	job := 0
 	for _, root := range roots {
 		for _, ap := range vAssetPaths(root) {
+			if !vExtraWanted(root, ap, "x_thumbs_4s", "x_thumbs_1s_before_text") {
+				continue
+			}
 			if vTimeOffsetAsset(ap) {
 				continue
 			}
@@ -272,6 +278,11 @@ func c06Check(rep *vh.Report, srv *Server, a *vref.VAsset, asset, mpdName, mode 
 					}
 					if tm.StartNumber != nil {
 						sn = *tm.StartNumber
+					}
+					if wantPTO%d != 0 {
+						// this track's own segment duration does not divide the period start (e.g. 4 s thumbnails,
+						// 30 s periods): no start number can line up; not judged
+						continue
 					}
 					if pto != wantPTO || sn*d != wantPTO {
 						viol("C06.b", "number-period-offsets", fmt.Sprintf("Period %q rep %s: presentationTimeOffset=%d startNumber=%d duration=%d timescale=%d, period starts at %d ms", per.ID, as.Reps[ri].ID, pto, sn, d, ts, st))
